@@ -19,7 +19,8 @@ def handlers : List (List Sexp → Option Sexp) :=
     Driver.sugarHandle,
     Driver.heapHandle,
     Driver.infixHandle,
-    Driver.quotedHandle ]
+    Driver.quotedHandle,
+    Driver.namesHandle ]
 
 def dispatch (line : String) : String :=
   match Sexp.parseAll line with
